@@ -119,6 +119,8 @@ def run(ctx):
     rnd = random.Random(ctx.seed)
     plain = [b for b in hists if effective_ticks(b) == 0]
     ticked = [b for b in hists if effective_ticks(b) > 0]
+    for l in (plain, ticked):   # TLC's workers print in no particular order
+        l.sort(key=lambda x: json.dumps(x, sort_keys=True))
     rnd.shuffle(plain)
     rnd.shuffle(ticked)
     # every behaviour with a closing tick costs up to 5.3 s of the proxy's own timer
